@@ -33,11 +33,12 @@ import (
 // ---------------------------------------------------------------------------
 
 type limitEntryRoute struct {
-	name   string
-	base   int             // D = base + d
-	dMin   int             // smallest meaningful d
-	dFixed bool            // the route has no nesting parameter (d is dMin only)
-	need   func(d int) int // overrides base + d where the accounting is not linear
+	name     string
+	base     int             // D = base + d
+	dMin     int             // smallest meaningful d
+	dFixed   bool            // the route has no nesting parameter (d is dMin only)
+	need     func(d int) int // overrides base + d where the accounting is not linear
+	needOtto func(d int) int // alternative model of known finding F-C18-004
 	// op performs the entry; it returns a short rendering of what the API reported
 	op func(vm *otto.Otto) string
 }
@@ -111,9 +112,10 @@ var limitEntryRoutes = []limitEntryRoute{
 	{name: "value_call_script_indirect_eval", dMin: 1, need: func(d int) int { return 3 * (d - 1) }, op: func(vm *otto.Otto) string {
 		return apiResult(getv(vm, "ri").Call(otto.UndefinedValue()))
 	}},
-	// nesting through direct eval: re number i sits at index i-1 and its eval (one unit
-	// per active direct eval) is checked against (i-1) + i: need = max(d-1, 2d-3)
-	{name: "value_call_script_direct_eval", dMin: 1, need: func(d int) int {
+	// nesting through direct eval: re number i sits at index i-1 with i-1 evals
+	// active, so it needs 2(i-1) units. (needOtto: frames are not charged for active
+	// evals, only the next eval is: max(d-1, 2d-3); known finding F-C18-004.)
+	{name: "value_call_script_direct_eval", dMin: 1, need: func(d int) int { return 2 * (d - 1) }, needOtto: func(d int) int {
 		if d == 1 {
 			return 0
 		}
@@ -266,6 +268,17 @@ func checkLimitEntry(r *engine.Run, route limitEntryRoute, direct callForm, L, d
 		r.Sample(fmt.Sprintf("L=%d %s d=%d (deepest frame index %d) => %s", L, route.name, d, need, opRes))
 	}
 	if exp != obs {
-		r.Mismatch(engine.Mismatch{Key: key, Input: input, Expected: exp, Observed: obs, Aux: map[string]string{"kind": "limit-entry"}})
+		aux := map[string]string{"kind": "limit-entry"}
+		if route.needOtto != nil {
+			entry := func(need int) string {
+				if L == 0 || need < L {
+					return "entry=" + limitEntryOK[route.name] + ";"
+				}
+				return "entry=err:RangeError: " + overflowMsg + ";"
+			}
+			alt := strings.Replace(exp, entry(need), entry(route.needOtto(d)), 1)
+			aux = map[string]string{"kind": "limit-mixed", "has_eval": "1", "alt_model": b01(obs == alt)}
+		}
+		r.Mismatch(engine.Mismatch{Key: key, Input: input, Expected: exp, Observed: obs, Aux: aux})
 	}
 }
